@@ -255,11 +255,60 @@ def run(rep, tier):
                 (f.module.rel == "hypnotoad/core/mesh.py" and f.qualname not in ("MeshRegion.addPointAtWallToContours", "_find_intersection", "MeshRegion.calcPenaltyMask")),
                 "topology tables and mesh assembly (cases/*.py, core/mesh.py)")
     r3(prog, rep)
+    shared_radial_edge_rule(prog, rep, topos)
     r5_r6(prog, rep, topos)
     y_group_origin(prog, rep, "R7")
     r8(prog, rep)
     rep.undecided("geometric coincidence of points on shared edges (numbers); circular core/limiter handled by the 1-region arm of the writer")
     return __doc__
+
+
+def shared_radial_edge_rule(prog, rep, topos):
+    """Two radially adjacent blocks share the contour at the boundary of their radial segments and
+    each regrids its own copy of it (MeshRegion.distributePointsNonorthogonal).  The points
+    coincide only if the spacing function on that contour does not depend on which block
+    computes it.  The generic direction vector does depend on it (it is taken through the
+    block's own neighbouring contours, one-sided at the block's edge), so the code special-cases
+    separatrix contours.  Segment boundaries are at *every* separatrix (tables: psi_sep[0] and,
+    for a disconnected double null, psi_sep[1]); hence the special case must quantify over all of
+    equilibrium.psi_sep, not name one of them."""
+    f = prog.func(MESH, "MeshRegion.distributePointsNonorthogonal")
+    mod = f.module
+    sv = next((n for n in ast.walk(f.node) if isinstance(n, ast.FunctionDef) and n.name == "surface_vec"), None)
+    # how many distinct separatrices bound radial segments, per the topology tables
+    nsep = 1
+    for t in topos:
+        vals = set()
+        for seg in t.segments.values():
+            for k in ("psi_start", "psi_end"):
+                v = seg.get(k)
+                if v is not None and "psi_sep" in str(getattr(v, "show", lambda *a: str(v))()):
+                    vals.add(str(v.show()) if hasattr(v, "show") else str(v))
+        nsep = max(nsep, len(vals))
+    if sv is None:
+        rep.ob("R3", "non-orthogonal regridding: contours on every separatrix get a spacing that both adjacent blocks compute alike", False, f.site(),
+               "unmodelled: no local function surface_vec in distributePointsNonorthogonal", key="shared-edge/separatrix-test")
+        return
+    tests = [n for n in walk_own(sv) if isinstance(n, ast.Assign) and isinstance(n.targets[0], ast.Name) and n.targets[0].id == "contour_is_separatrix"]
+    if len(tests) != 1:
+        rep.ob("R3", "non-orthogonal regridding: contours on every separatrix get a spacing that both adjacent blocks compute alike", False, f.site(sv),
+               "unmodelled: %d definitions of contour_is_separatrix" % len(tests), key="shared-edge/separatrix-test")
+        return
+    v = inline_temporaries(sv, tests[0].value)
+    single = [mod.code(x) for x in ast.walk(v) if isinstance(x, ast.Subscript) and isinstance(x.value, ast.Attribute) and x.value.attr == "psi_sep" and isinstance(x.slice, (ast.Constant, ast.UnaryOp))]
+    over_all = any(isinstance(x, (ast.GeneratorExp, ast.ListComp)) and any(isinstance(g.iter, ast.Attribute) and g.iter.attr == "psi_sep" for g in x.generators) for x in ast.walk(v)) \
+        or any(isinstance(x, ast.Call) and mod.code(x.func) in ("numpy.any", "any", "numpy.isclose") and any(isinstance(y, ast.Attribute) and y.attr == "psi_sep" for y in ast.walk(x)) for x in ast.walk(v))
+    if single:
+        ok, detail = False, "only %s is recognised as a separatrix; the tables put radial segment boundaries on %d separatrices (disconnected double null: psi_sep[0] and psi_sep[1]), so on the other one the two adjacent blocks use different one-sided direction vectors and place different points on the shared edge" % (", ".join(sorted(set(single))), max(nsep, 2))
+    elif over_all:
+        ok, detail = True, "test quantifies over equilibrium.psi_sep"
+    else:
+        ok, detail = False, "unmodelled separatrix test: %s" % mod.code(v)[:100]
+    rep.ob("R3", "non-orthogonal regridding: contours on every separatrix get a spacing that both adjacent blocks compute alike", ok, f.site(tests[0]), detail, key="shared-edge/separatrix-test")
+    # the special case itself must not depend on the block: it returns the region's wall vector or None
+    rets = [mod.code(r.value) if r.value is not None else "None" for n in walk_own(sv) if isinstance(n, ast.If) and mod.code(n.test) == "contour_is_separatrix" for r in ast.walk(n) if isinstance(r, ast.Return)]
+    ok = bool(rets) and set(rets) <= {"self.equilibriumRegion.wallSurfaceAtStart", "self.equilibriumRegion.wallSurfaceAtEnd", "None"}
+    rep.ob("R3", "on a separatrix contour the direction vector is the poloidal region's wall vector or none (the same for both adjacent blocks)", ok, f.site(sv), str(sorted(set(rets))), key="shared-edge/separatrix-vector")
 
 
 def conn_maps(t):
